@@ -48,6 +48,6 @@ Theorem naive_shifted_on_its_own_clock : forall W f hours minutes seconds us, wa
   let total := td_total_us 0 hours minutes seconds us in
   -999999999 <= total / us_per_day <= 999999999 ->
   add_naive W f 0 0 0 0 hours minutes seconds us =
-  if wall_in_range (W + total) then Ok (W + total, false) else Raise E_OverflowError.
+  if wall_in_range (W + total) then Ok (W + total, true) else Raise E_OverflowError.
 Proof. exact add_naive_fixed. Qed.
 Print Assumptions naive_shifted_on_its_own_clock.
